@@ -24,7 +24,7 @@ for d in /verif/seeded/*/; do
   git -C /repo apply $d/patch.diff
   QV_EVIDENCE_DIR=$E/$prop python3 run.py check $prop >/tmp/rg.out 2>&1; rc=$?
   git -C /repo checkout -- .
-  if grep -q "NOT DETECTED" $d/meta.json; then exp="(documented miss)"; else exp=""; [ $rc -eq 1 ] || { fail=1; exp="UNEXPECTED"; }; fi
+  if python3 -c "import json,sys;sys.exit(0 if 'NOT DETECTED' in json.load(open('$d/meta.json'))['detected_by'] else 1)"; then exp="(documented miss)"; else exp=""; [ $rc -eq 1 ] || { fail=1; exp="UNEXPECTED"; }; fi
   echo "  $id $prop rc=$rc $exp"
 done
 echo "== behaviour-preserving refactors"
